@@ -358,7 +358,9 @@ def endpoint_kwargs(draw, n: int, satisfiable_bias: bool = True):
         ep["deadend_end"] = draw(st.booleans())
     if draw(st.booleans()):
         ep["endpoints_not_equal"] = draw(st.booleans())
-    return ep
+    # the order in which a caller happens to write the options is part of the input (a config hashes its serialized form)
+    keys = draw(st.permutations(sorted(ep)))
+    return {k: ep[k] for k in keys}
 
 
 @st.composite
